@@ -137,6 +137,14 @@ public:
         "Pointer arithmetic overflowed a pointer beyond sandbox memory");      \
                                                                                \
       return tainted<T, T_Sbx>::internal_factory(reinterpret_cast<T>(target)); \
+    } else if constexpr (std::is_pointer_v<decltype(raw_rhs)>) {               \
+      /* n + p with a tainted pointer p: this is p + n, which applies the */   \
+      /* sandbox's stride and the bounds check. Plain pointer arithmetic */    \
+      /* on the raw values would do neither. */                                \
+      static_assert(detail::rlbox_is_tainted_or_vol_v<T_Rhs> &&                \
+                      std::is_integral_v<T> && (#opSymbol)[0] == '+',          \
+                    "Only an integer can be added to a tainted pointer");      \
+      return rhs opSymbol impl();                                              \
     } else {                                                                   \
       auto raw = impl().get_raw_value();                                       \
       auto ret = raw opSymbol raw_rhs;                                         \
